@@ -416,6 +416,74 @@ func (e *acceptEngine) observe(fn *ssa.Function, ce ir.CondEdge) (*ssa.Call, boo
 	return nil, false
 }
 
+// observedEstablishes: the edge observes the accepting outcome of a callee
+// that establishes f. For an error variable fed from several places (err :=
+// a(); if err == nil { err = b() }; if err != nil { return }) a nil value
+// says nothing about the sources that are known to be non-nil where they flow
+// in; it means that every remaining source returned nil, so f holds when each
+// of those establishes it.
+func (e *acceptEngine) observedEstablishes(fn *ssa.Function, ce ir.CondEdge, f *fact) bool {
+	if call, em := e.observe(fn, ce); call != nil && certArgsOK(fn, call) && e.establishesMode(ir.Callee(call), f, em) {
+		return true
+	}
+	cond, truth := condOf(fn, ce)
+	v, isNil := errIsNil(cond, truth)
+	ph, isPhi := v.(*ssa.Phi)
+	if v == nil || !isNil || !isPhi {
+		return false
+	}
+	n := 0
+	for k, ev := range ph.Edges {
+		if errNonNilOnEdge(fn, ev, ph.Block().Preds[k], ph.Block()) {
+			continue
+		}
+		call := callOf(ev)
+		if call == nil {
+			return false
+		}
+		callee := ir.Callee(call)
+		if callee == nil || !e.c.P.InLib(callee) || !certArgsOK(fn, call) {
+			return false
+		}
+		rs := callee.Signature.Results()
+		if rs.Len() == 0 || !isErrorType(rs.At(rs.Len()-1).Type()) {
+			return false
+		}
+		if !e.establishesMode(callee, f, rs.Len() > 1 && isBoolType(rs.At(0).Type())) {
+			return false
+		}
+		n++
+	}
+	return n > 0
+}
+
+// errNonNilOnEdge: the error value ev cannot be nil when control passes from
+// pred to succ — it was just made by a constructor, or a test of it on the way
+// (a condition dominating pred, or the branch pred ends in) found it non-nil.
+func errNonNilOnEdge(fn *ssa.Function, ev ssa.Value, pred, succ *ssa.BasicBlock) bool {
+	if call := callOf(ev); call != nil {
+		switch ir.CallID(call) {
+		case "errors.New", "fmt.Errorf":
+			return true
+		}
+	}
+	test := func(cond ssa.Value, truth bool) bool {
+		v, isNil := errIsNil(cond, truth)
+		return v != nil && !isNil && sameErrValue(v, ev)
+	}
+	for _, ce := range ir.DominatingConds(fn, pred) {
+		if test(ce.RawCond, ce.RawTruth) {
+			return true
+		}
+	}
+	for _, ce := range ir.CondEdges(fn) {
+		if ce.Edge.From == pred.Index && ce.Edge.To == succ.Index && ce.If != nil && test(ce.RawCond, ce.RawTruth) {
+			return true
+		}
+	}
+	return false
+}
+
 // condOf: the branch condition of a conditional edge (or the bare condition
 // value of a synthetic edge) and the truth value it has on that edge.
 func condOf(fn *ssa.Function, ce ir.CondEdge) (ssa.Value, bool) {
@@ -473,11 +541,9 @@ func (e *acceptEngine) evidenceEdges(fn *ssa.Function, f *fact) []ir.Edge {
 			out = append(out, ce.Edge)
 			continue
 		}
-		if call, em := e.observe(fn, ce); call != nil && certArgsOK(fn, call) {
-			if e.establishesMode(ir.Callee(call), f, em) {
-				out = append(out, ce.Edge)
-				continue
-			}
+		if e.observedEstablishes(fn, ce, f) {
+			out = append(out, ce.Edge)
+			continue
 		}
 		// a flag: `ok` is a phi of false and accepting results
 		if cond, truth := condOf(fn, ce); ce.If != nil {
@@ -918,13 +984,6 @@ var factSignature = &fact{id: "signature", what: "an RSA-SHA256 signature by the
 		if v == nil || !isNil {
 			return false // not "error is nil" on this edge
 		}
-		attrsOK := func(signed ssa.Value) bool {
-			ss := c.sliceOf(signed)
-			return len(ir.CallsIn(ss, M+"/pkcs7.Attributes.Marshal")) > 0 && ir.HasField(ss, M+"/pkcs7.signerinfo.AuthenticatedAttributes")
-		}
-		sigOK := func(sig ssa.Value) bool {
-			return ir.HasField(c.sliceOf(sig), M+"/pkcs7.signerinfo.EncryptedDigest")
-		}
 		// an error variable that may still hold its initial nil when it is tested (a
 		// switch without default around the check) lets the edge be taken unchecked
 		if mayBeUnsetNil(v, map[ssa.Value]bool{}) {
@@ -944,41 +1003,129 @@ var factSignature = &fact{id: "signature", what: "an RSA-SHA256 signature by the
 				if !isK || algo != want {
 					continue
 				}
-				if attrsOK(args[2]) && sigOK(args[3]) {
+				okAll := true
+				for _, cx := range c.argContexts(call.Parent()) {
+					ss := c.sliceWithArgs(args[2], cx)
+					if !(len(ir.CallsIn(ss, M+"/pkcs7.Attributes.Marshal")) > 0 && ir.HasField(ss, M+"/pkcs7.signerinfo.AuthenticatedAttributes")) ||
+						!ir.HasField(c.sliceWithArgs(args[3], cx), M+"/pkcs7.signerinfo.EncryptedDigest") {
+						okAll = false
+					}
+				}
+				if okAll {
 					good++
 				}
 			case "crypto/rsa.VerifyPKCS1v15":
 				args := call.Call.Args // pub, hash, hashed, sig
-				// the key is the caller certificate's public key
-				ps := c.sliceOf(args[0])
-				if !ir.HasField(ps, "crypto/x509.Certificate.PublicKey") || ir.HasField(ps, M+"/pkcs7.PKCS7.Certs") {
-					continue
-				}
-				keyFromCaller := false
-				for pv := range ps {
-					if fa, isFA := pv.(*ssa.FieldAddr); isFA && ir.FieldID(fa) == "crypto/x509.Certificate.PublicKey" && isCallerCert(fa.Parent(), fa.X) && (fa.Parent() == fn || fa.Parent().Parent() == fn) {
-						keyFromCaller = true
-					}
-				}
-				if !keyFromCaller {
-					continue
-				}
 				h, isK := ir.ConstInt(args[1])
 				want, _ := c.constInt("crypto", "SHA256")
 				if !isK || h != want {
 					continue
 				}
-				hs := c.sliceOf(args[2])
-				if !sha256Only(c, hs) || len(ir.CallsIn(hs, M+"/pkcs7.Attributes.Marshal")) == 0 || !ir.HasField(hs, M+"/pkcs7.signerinfo.AuthenticatedAttributes") {
-					continue
+				// judged where the call stands, or — when key, message and signature
+				// are parameters of an unexported helper around the primitive — at
+				// every call site of that helper
+				okAll := true
+				for _, cx := range c.argContexts(call.Parent()) {
+					sl := func(v ssa.Value) map[ssa.Value]bool { return c.sliceWithArgs(v, cx) }
+					at := cx.fn
+					if at == nil {
+						at = fn
+					}
+					// the key is the caller certificate's public key
+					ps := sl(args[0])
+					if !ir.HasField(ps, "crypto/x509.Certificate.PublicKey") || ir.HasField(ps, M+"/pkcs7.PKCS7.Certs") {
+						okAll = false
+						break
+					}
+					keyFromCaller := false
+					for pv := range ps {
+						if fa, isFA := pv.(*ssa.FieldAddr); isFA && ir.FieldID(fa) == "crypto/x509.Certificate.PublicKey" && isCallerCert(fa.Parent(), fa.X) && (fa.Parent() == at || fa.Parent().Parent() == at) {
+							keyFromCaller = true
+						}
+					}
+					hs := sl(args[2])
+					if !keyFromCaller || !sha256Only(c, hs) || len(ir.CallsIn(hs, M+"/pkcs7.Attributes.Marshal")) == 0 || !ir.HasField(hs, M+"/pkcs7.signerinfo.AuthenticatedAttributes") {
+						okAll = false
+						break
+					}
+					if !ir.HasField(sl(args[3]), M+"/pkcs7.signerinfo.EncryptedDigest") {
+						okAll = false
+						break
+					}
 				}
-				if sigOK(args[3]) {
+				if okAll {
 					good++
 				}
 			}
 		}
 		return good > 0 && good == len(origins)
 	}}
+
+// argContext: one call site of an unexported helper, with the argument bound
+// to each parameter; the zero context stands for "no helper in between".
+type argContext struct {
+	fn   *ssa.Function
+	args map[*ssa.Parameter]ssa.Value
+}
+
+// argContexts lists the library call sites of fn when fn is an unexported
+// plain function; otherwise (and when it has no call site) the single empty
+// context.
+func (c *Ctx) argContexts(fn *ssa.Function) []argContext {
+	none := []argContext{{}}
+	if fn == nil || fn.Object() == nil || fn.Object().Exported() {
+		return none
+	}
+	node := c.P.CallGraph().Nodes[fn]
+	if node == nil {
+		return none
+	}
+	var out []argContext
+	for _, in := range node.In {
+		if in.Site == nil || !c.P.InLib(in.Caller.Func) || in.Site.Common().StaticCallee() != fn {
+			continue
+		}
+		if in.Caller.Func.Synthetic != "" && len(in.Caller.In) == 0 {
+			continue // the wrapper of a promoted method that nothing calls
+		}
+		args := ir.CallArgs(in.Site)
+		if len(args) != len(fn.Params) {
+			continue
+		}
+		cx := argContext{fn: in.Caller.Func, args: map[*ssa.Parameter]ssa.Value{}}
+		for k, p := range fn.Params {
+			cx.args[p] = args[k]
+		}
+		out = append(out, cx)
+	}
+	if len(out) == 0 {
+		return none
+	}
+	return out
+}
+
+// sliceWithArgs: the backward slice of v, continued through the parameters it
+// reaches into the arguments of the given call site.
+func (c *Ctx) sliceWithArgs(v ssa.Value, cx argContext) map[ssa.Value]bool {
+	s := c.sliceOf(v)
+	if cx.fn == nil {
+		return s
+	}
+	out := map[ssa.Value]bool{}
+	for k := range s {
+		out[k] = true
+	}
+	for k := range s {
+		if p, ok := k.(*ssa.Parameter); ok {
+			if a, bound := cx.args[p]; bound {
+				for q := range c.sliceOf(a) {
+					out[q] = true
+				}
+			}
+		}
+	}
+	return out
+}
 
 // mayBeUnsetNil: the error value is a phi (or a cell) one of whose sources is
 // the constant nil.
@@ -1083,15 +1230,19 @@ var factContentDigest = &fact{id: "content-digest", what: "the signed messageDig
 		return why
 	},
 	direct: func(c *Ctx, fn *ssa.Function, ce ir.CondEdge) bool {
-		// detached: len(content) == 0 on this edge, content deriving from PKCS7.ContentInfo
+		// detached: len(content) == 0 on this edge (also written < 1, <= 0, or with
+		// the operands swapped), content deriving from PKCS7.ContentInfo
 		if cmp, ok := ce.Cond.(*ssa.BinOp); ok {
-			if lc, ok := ir.StripConv(cmp.X).(*ssa.Call); ok && ir.CallID(lc) == "builtin.len" {
-				if k, isK := ir.ConstInt(cmp.Y); isK && k == 0 {
-					op := cmp.Op
-					if !ce.Truth {
-						op = negate(op)
-					}
-					if op == token.EQL || op == token.LEQ {
+			x, y, op := cmp.X, cmp.Y, cmp.Op
+			if !ce.Truth {
+				op = negate(op)
+			}
+			if _, isK := ir.ConstInt(x); isK {
+				x, y, op = y, x, flip(op)
+			}
+			if lc, ok := ir.StripConv(x).(*ssa.Call); ok && ir.CallID(lc) == "builtin.len" {
+				if k, isK := ir.ConstInt(y); isK {
+					if (op == token.EQL || op == token.LEQ) && k == 0 || op == token.LSS && k == 1 {
 						if ir.HasField(c.sliceOf(lc.Call.Args[0]), M+"/pkcs7.PKCS7.ContentInfo") {
 							return true
 						}
